@@ -94,6 +94,8 @@ pub fn adt_events(t: &mut TraceFile, evs: &[verif::Event]) {
             "afin" => t.line(json!({"ev": "afin", "nb": e.a})),
             "dnew" => t.line(json!({"ev": "dnew", "stored": e.a, "nin": e.b, "ver": e.c})),
             "rf" => t.line(json!({"ev": "rf", "kind": e.a, "chunk": e.b, "n": e.s.as_bytes()})),
+            "wc" => t.line(json!({"ev": "wc", "idx": e.a})),
+            "rc" => t.line(json!({"ev": "rc", "idx": e.a, "case": e.b})),
             _ => {}
         }
     }
